@@ -113,6 +113,15 @@ fn load(store: &mut Store, ns: NamespaceId, es: &[SignedEntry]) {
     for e in es {
         verif::si_entry_put(store, ns, e.clone()).unwrap();
     }
+    // One load in three is followed by a call the store must refuse (it names a document the store
+    // does not have — what a late completion does after its document was dropped), while the loaded
+    // entries are still in the open write batch: an ordered map keeps what it was given (added after
+    // seeded change agent-C08-9).
+    if es.len() % 3 == 0 {
+        let missing = crate::gen::namespace(200).id();
+        let _ = store.register_useful_peer(missing, [9u8; 32]);
+        let _ = store.set_download_policy(&missing, iroh_docs::store::DownloadPolicy::default());
+    }
 }
 
 fn scan(store: &mut Store, ns: NamespaceId) -> Vec<SignedEntry> {
